@@ -223,6 +223,12 @@ func (a *multipartResponseAggregator) Done(w http.ResponseWriter) {
 
 // Add accumulates the responses
 func (a *multipartResponseAggregator) Add(resp *graphql.Response, initialResponse bool) {
+	// The response is kept until the next flush, but the executor may reuse the buffer behind
+	// resp.Data for the following payload (subscriptions do): keep our own copy.
+	kept := *resp
+	kept.Data = append(json.RawMessage(nil), resp.Data...)
+	resp = &kept
+
 	a.mu.Lock()
 	defer a.mu.Unlock()
 	if initialResponse {
